@@ -212,6 +212,31 @@ impl<S: BuildHasher + Clone + 'static> ExpirationMap<S> {
     }
 }
 
+#[cfg(transparencies_stretto_verif)]
+impl Time {
+    /// (ttl, creation time)
+    pub fn verif_parts(&self) -> (Duration, SystemTime) {
+        (self.d, self.created_at)
+    }
+}
+
+#[cfg(transparencies_stretto_verif)]
+impl<S: BuildHasher + Clone + 'static> ExpirationMap<S> {
+    pub(crate) fn verif_buckets(&self) -> Vec<(i64, Vec<(u64, u64)>)> {
+        let m = self.buckets.read();
+        let mut out: Vec<(i64, Vec<(u64, u64)>)> = m
+            .iter()
+            .map(|(b, bucket)| {
+                let mut keys: Vec<(u64, u64)> = bucket.map.iter().map(|(k, c)| (*k, *c)).collect();
+                keys.sort_unstable();
+                (*b, keys)
+            })
+            .collect();
+        out.sort_unstable();
+        out
+    }
+}
+
 unsafe impl<S: BuildHasher + Clone + 'static> Send for ExpirationMap<S> {}
 
 unsafe impl<S: BuildHasher + Clone + 'static> Sync for ExpirationMap<S> {}
